@@ -212,6 +212,11 @@ impl GseDecapMemory for RecMem {
                 self.log_inj("provision", 0, tag, "overflow", tag);
                 return Err(DecapMemoryError::StorageOverflow(storage));
             }
+            if v == 2 {
+                // the other refusal the trait documents: the buffer is handed back as too small
+                self.log_inj("provision", 0, tag, "toosmall", tag);
+                return Err(DecapMemoryError::BufferTooSmall(storage));
+            }
             self.log_inj("provision", 0, tag, "corrupted", 0);
             self.stash.push(storage);
             return Err(DecapMemoryError::MemoryCorrupted);
